@@ -266,4 +266,29 @@ example : Blind.ruleOK ⟨.cplx (.cons (.atom "first") (.cons (.var 0 "$X") .nil
       (.cons (.bip "unify" (some (.cons (.var 0 "$Y") (.cons (.atom "b") .nil))))
       (.cons (.bip "less_than" (some (.cons (.var 0 "$X") (.cons (.atom "z") .nil)))) .nil))))⟩ := ⟨⟨by decide, by decide⟩, by decide⟩
 
+/-- the premises of `C11_engine` are met on the two knowledge bases of the example: both are in the fragment, the query
+    `p($A, $B)` gets a base node in each, and the global state of a fresh query has no pending timer -/
+example : (∀ key rs, kbA.get key = some rs → ∀ r ∈ rs, r.body.isNil = true ∨ Spec.Grp.okG r.body = true) ∧
+    (∃ node g1, mkNode fo0.showF kbA (.call (c2 "p" (.var 1 "$A") (.var 2 "$B"))) [] { G.init with counter := 2 } = .ok (node, g1)) ∧
+    (∃ node g1, mkNode fo0.showF kbB (.call (c2 "p" (.var 1 "$A") (.var 2 "$B"))) [] { G.init with counter := 2 } = .ok (node, g1)) ∧
+    Spec.GOK { G.init with counter := 2 } ∧
+    (Blind.good 2 (c2 "p" (.var 1 "$A") (.var 2 "$B")) = true ∧ Blind.callOK (c2 "p" (.var 1 "$A") (.var 2 "$B")) = true) := by
+  refine ⟨?_, ⟨_, _, rfl⟩, ⟨_, _, rfl⟩, ⟨rfl, rfl⟩, by decide, by decide⟩
+  intro key rs hk r hr
+  simp only [kbA, KB.get] at hk
+  by_cases h1 : "p/2" = key
+  · simp only [h1, if_true, Option.some.injEq] at hk
+    subst hk
+    simp only [List.mem_singleton] at hr
+    subst hr
+    exact Or.inr (by decide)
+  · simp only [h1, if_false] at hk
+    by_cases h2 : "q/2" = key
+    · simp only [h2, if_true, Option.some.injEq] at hk
+      subst hk
+      simp only [List.mem_singleton] at hr
+      subst hr
+      exact Or.inl (by decide)
+    · simp [h2] at hk
+
 end Suiron.C11
